@@ -186,7 +186,7 @@ PROPS = {
                         [("GcpVerif.Proofs.Ties", "GcpVerif.Ties.cond_broadcast_handshake")],
             "leanchecker": ["GcpVerif.Proofs.Stream", "GcpVerif.Proofs.Ties"],
             "trusted_base": ST_TB, "assumptions": []},
-    "C17": {"harnesses": ["cfg"], "lake_targets": ["GcpVerif"],
+    "C17": {"harnesses": ["cfg", "gme"], "lake_targets": ["GcpVerif"],
             "theorems": [("GcpVerif.Proofs.Config", "GcpVerif.Config." + n) for n in
                          ["defaults_tie", "effective_defaults", "effective_absent_pool", "effective_no_config", "effective_methods",
                           "effective_keeps_rest", "effective_idem", "method_table_sound", "method_table_complete",
